@@ -8,7 +8,10 @@ WS_ODD = ["\r", "\x0b", "\x0c", "\x1c", "\x1f", "\x85", "\xa0", "\u1680", "\u200
 # one representative per interesting code-point class for character damage
 ODD_CHARS = ["\u212a", "\u017f", "\u0130", "\u0131", "\u03a3", "\u03c2", "\x00", "\\", "\ud800", "_", "+", "-", ".", "(", ")",
              "\xe9", "\u0661", "\uff21", "'", '"', ",", ":", "/", "*", "\u200b", "\ufeff", "0", "a", "Z", "\xdf", "\u01c5"]
-REF_SUFFIXES = ["x", "Foo", "foo", "FOO", "a.b-c", "1", "-", ".", "MIT", "Proprietary", "Public-Domain", "a-very-long-suffix.0"]
+REF_SUFFIXES = ["x", "Foo", "foo", "FOO", "a.b-c", "1", "-", ".", "MIT", "Proprietary", "Public-Domain", "a-very-long-suffix.0",
+                # the reference part is preserved verbatim even when it looks like a prefix, a keyword or an operator
+                "vendor.licenseref-eula", "a-LICENSEREF-b", "LicenseRef-x", "licenseref-", "x.LicenSeRef-y", "and", "OR", "with", "WITH-x",
+                "mit", "Apache-2.0", "a.licenseref-.b"]
 UNKNOWN = ["foo", "licence", "GPL", "true", "false", "not", "None", "mit2", "LicenseRef", "WITHx", "x-and-y", "1", "licenseref_x"]
 OPS = ["AND", "OR"]
 
